@@ -2,6 +2,7 @@ package main
 
 import (
 	"fmt"
+	"os"
 	"go/token"
 	"go/types"
 	"sort"
@@ -228,6 +229,19 @@ func (vc *FnVC) Run() {
 			}
 		}
 		vc.runBlock(b, bst)
+	}
+	if vc.unit != nil {
+		for _, a := range vc.unit.Ats {
+			used := false
+			for _, u := range vc.atUsed {
+				if u == a.Text {
+					used = true
+				}
+			}
+			if !used {
+				vc.contractError("at %q: no instruction of the function matches this text", a.Text)
+			}
+		}
 	}
 }
 
@@ -596,6 +610,15 @@ func (vc *FnVC) checkAts(st *State, in ssa.Instruction) {
 		txt = vc.srcText(v, in)
 	} else {
 		txt = vc.srcText(nil, in)
+	}
+	if st, ok := in.(*ssa.Store); ok {
+		// a store is identified by the whole assignment statement it belongs to
+		if t := vc.G.stmtAt(st.Pos()); t != "" {
+			txt = t
+		}
+	}
+	if os.Getenv("GOVC_DEBUG_AT") != "" {
+		fmt.Fprintf(os.Stderr, "at-text %T %q\n", in, txt)
 	}
 	for _, a := range vc.unit.Ats {
 		if !strings.Contains(txt, a.Text) {
